@@ -44,6 +44,11 @@ RULES = [
     # the named fields of printf are part of the OUT instruction's semantics (C01)
     ('C03', [r'^Parser\._rvalue\[dest=']),
     ('C01', [r'^VmIo\._printf']),
+    # round 9: a duration set before a `units` switch is transmitted after it - its exactness (C07) rests on the switch keeping the
+    # register's meaning; a stop by name is forwarded only if the job is reported as running under that name, in the queue or in the
+    # background, whatever else is active (C09)
+    ('C07', [r'^Machine\._switch_unit_mode']),
+    ('C09', [r'^JobControl\.is_running']),
 ]
 for pid, pats in RULES:
     for c in spec.REGISTRY:
